@@ -19,7 +19,6 @@ package ipfilter
 
 import (
 	"net"
-	"strings"
 
 	"github.com/yl2chen/cidranger"
 
@@ -61,12 +60,12 @@ func New(spec *Spec) *IPFilter {
 		for _, ipcidr := range ipcidrs {
 			ip := net.ParseIP(ipcidr)
 			if ip != nil {
-				mask := allOnesIPv4Mask
-				// https://stackoverflow.com/a/48519490/1705845
-				if strings.Count(ipcidr, ":") >= 2 {
-					mask = allOnesIPv6Mask
+				// the family is decided by the address, not by its spelling:
+				// ::ffff:a.b.c.d is the IPv4 address a.b.c.d
+				ipNet := net.IPNet{IP: ip, Mask: allOnesIPv6Mask}
+				if ip4 := ip.To4(); ip4 != nil {
+					ipNet = net.IPNet{IP: ip4, Mask: allOnesIPv4Mask}
 				}
-				ipNet := net.IPNet{IP: ip, Mask: mask}
 				ranger.Insert(cidranger.NewBasicRangerEntry(ipNet))
 				continue
 			}
@@ -75,6 +74,14 @@ func New(spec *Spec) *IPFilter {
 			if err != nil {
 				logger.Errorf("BUG: %s is an invalid ip or cidr", ipcidr)
 				continue
+			}
+			// an IPv4-mapped block ::ffff:a.b.c.d/(96+n) is the IPv4 block
+			// a.b.c.d/n; cidranger would pair the 32-bit address with the
+			// 128-bit mask and match nothing, or panic in Insert
+			if ip4 := ipNet.IP.To4(); ip4 != nil && len(ipNet.Mask) == net.IPv6len {
+				if ones, _ := ipNet.Mask.Size(); ones >= 96 {
+					ipNet = &net.IPNet{IP: ip4, Mask: net.CIDRMask(ones-96, 32)}
+				}
 			}
 			ranger.Insert(cidranger.NewBasicRangerEntry(*ipNet))
 		}
